@@ -60,6 +60,7 @@ type Ctx struct {
 	freshRefs map[string]bool // reference terms returned by allocations of this run (of this loop body in a dry run)
 	writeBases map[string]map[string]Term // heap key -> objects written (not allocated by this run)
 	defined   map[string]bool // SMT symbols introduced so far
+	named     map[string]Term // long spec terms that were given a name
 	volatile  map[string]bool // heap keys written by spawned goroutines (reads are unconstrained)
 	volatileAll bool
 	fn        *ssa.Function
@@ -82,6 +83,7 @@ func (c *Ctx) fork() *Ctx {
 	n.freshRefs = map[string]bool{}
 	n.writeBases = map[string]map[string]Term{}
 	n.defined = cloneMap(c.defined)
+	n.named = cloneMap(c.named)
 	n.volatile = cloneMap(c.volatile)
 	n.decls = c.decls[:len(c.decls):len(c.decls)]
 	n.body = c.body[:len(c.body):len(c.body)]
